@@ -27,7 +27,7 @@ type c18Result struct {
 }
 
 func c18(c *rig.Ctx) {
-	c.Rule("C18: PRNG-generated commit DAGs (1–60 commits, 0–4 parents biased to recent tips, duplicate parents, explicit criss-cross pairs, octopus merges, extra roots), built through datas.Database (Commit on fresh dataset / Commit on a dataset whose head is a parent / NewCommitForValue+WriteCommit) on memory storage and, for a subset, an on-disk NBS store that is reopened; a DAG is distinct by its parent-list shape and non-trivial when it contains a merge")
+	c.Rule("C18: PRNG-generated commit DAGs (1–60 commits, 0–4 parents biased to recent tips, duplicate parents, explicit criss-cross pairs, octopus merges, extra roots), built through datas.Database (Commit on fresh dataset / Commit on a dataset whose head is a parent / NewCommitForValue+WriteCommit) on memory storage and, for a subset, an on-disk NBS store that is reopened; a DAG is distinct by its parent-list shape and non-trivial when it contains a merge; plus the TALL family (chains of 260–700 commits with side branches and merges around heights 250–258 and 509–514, sometimes a second unrelated tall chain) whose boundary commits and a PRNG sample get the same checks")
 	c.Assume("C18: the brute-force ancestor walk and height recursion of the harness (cross-checked against a second incremental implementation on every DAG) define 'proper ancestors' and 'height'")
 	n := c.Pick(1000, 50000)
 	type job struct{ i int }
@@ -65,6 +65,7 @@ func c18(c *rig.Ctx) {
 	}
 	close(jobs)
 	wg.Wait()
+	c18Tall(c, total, &mu)
 	for _, k := range sortedKeys(total) {
 		c.Count(k, total[k])
 	}
@@ -78,6 +79,7 @@ func c18(c *rig.Ctx) {
 	c.Require(agg.Merges > 0 && agg.Octopus > 0 && agg.DupParents > 0 && agg.CrissCross > 0 && agg.Roots > n,
 		"C18 needs merges, octopus merges, duplicate parents, criss-cross pairs and multi-root DAGs")
 	c.Require(total["c18.closure.entries_compared"] > 0, "C18 compared no closure entries")
+	c.Require(total["c18.closure.entries_height_ge_256"] > 0 && total["c18.tall.max_height"] >= 512, "C18 tall graphs: no closure entry with height ≥ 256 compared / no graph reaching height 512")
 	c.Require(total["c18.reread.nbs_reopened"] > 0, "C18 never re-read commits from a reopened on-disk store")
 }
 
@@ -129,7 +131,7 @@ func c18One(c *rig.Ctx, i int) c18Result {
 	for _, rt := range b.route {
 		res.counts["c18.route."+rt]++
 	}
-	c18Check(c, name, b, b.realDB, "live", res.counts)
+	c18Check(c, name, b, b.realDB, "live", res.counts, nil)
 
 	// a commit's address never changes: rebuild a few commits from the same inputs (pure construction, no head moves)
 	for k := 0; k < 3 && len(m.C) > 1; k++ {
@@ -160,7 +162,7 @@ func c18One(c *rig.Ctx, i int) c18Result {
 		st, err := oracle.OpenLocal(dir, 1<<20)
 		rig.Must(err)
 		rdb2 := newRealDB(st)
-		c18Check(c, name, b, rdb2, "reopened", res.counts)
+		c18Check(c, name, b, rdb2, "reopened", res.counts, nil)
 		res.counts["c18.reread.nbs_reopened"]++
 		rdb2.db.Close()
 	} else {
@@ -173,11 +175,21 @@ func c18One(c *rig.Ctx, i int) c18Result {
 }
 
 // c18Check reads every commit of the DAG back through |rdb| and compares height, parents, closure and address.
-func c18Check(c *rig.Ctx, name string, b *builtDAG, rdb *realDB, phase string, counts map[string]int) {
+func c18Check(c *rig.Ctx, name string, b *builtDAG, rdb *realDB, phase string, counts map[string]int, only []int) {
 	m := b.m
-	for k := range m.C {
+	if only == nil {
+		only = make([]int, len(m.C))
+		for k := range only {
+			only[k] = k
+		}
+	}
+	var dagWit any = m.C
+	if b.witDag != nil {
+		dagWit = b.witDag
+	}
+	for _, k := range only {
 		wit := func(extra map[string]any) map[string]any {
-			w := map[string]any{"dag": m.C, "commit": k, "addr": b.addr[k].String(), "phase": phase, "route": b.route[k]}
+			w := map[string]any{"dag": dagWit, "commit": k, "height": m.height[k], "addr": b.addr[k].String(), "phase": phase, "route": b.route[k]}
 			for a, v := range extra {
 				w[a] = v
 			}
@@ -266,6 +278,9 @@ func c18Check(c *rig.Ctx, name string, b *builtDAG, rdb *realDB, phase string, c
 					break
 				}
 				entries++
+				if key.Height() >= 256 {
+					counts["c18.closure.entries_height_ge_256"]++
+				}
 				if _, dup := got[key.Addr()]; dup {
 					dupEntries = append(dupEntries, idxName(b, key.Addr()))
 				}
